@@ -2,6 +2,7 @@ package rules
 
 import (
 	"fmt"
+	"strconv"
 	"strings"
 
 	"iocvet/internal/absint"
@@ -115,6 +116,24 @@ func stringModels(t *tbl) {
 			}
 		}
 		return absint.Str(fmt.Sprintf(string(f), args...))
+	}
+	t.ext["strconv.ParseBool"] = func(ip *absint.Interp, a []absint.Value) absint.Value {
+		b, err := strconv.ParseBool(str(a[0]))
+		if err != nil {
+			return absint.Tuple{absint.Bool(false), t.newErr("ParseBool")}
+		}
+		return absint.Tuple{absint.Bool(b), absint.Nil{}}
+	}
+	t.ext["strconv.Atoi"] = func(ip *absint.Interp, a []absint.Value) absint.Value {
+		n, err := strconv.Atoi(str(a[0]))
+		if err != nil {
+			return absint.Tuple{absint.Int(0), t.newErr("Atoi")}
+		}
+		return absint.Tuple{absint.Int(n), absint.Nil{}}
+	}
+	t.ext["strconv.Itoa"] = func(ip *absint.Interp, a []absint.Value) absint.Value {
+		n, _ := a[0].(absint.Int)
+		return absint.Str(strconv.Itoa(int(n)))
 	}
 	// ---- github.com/go-kid/strings2 v0.0.1
 	blocksOf := func(v absint.Value) bool {
